@@ -28,7 +28,7 @@ theorem exactly_once_partial (cfg : Cfg) (limit : Nat) (acts : List Act)
 /-- the unchanged tree (`requeue = false`): reader 0 waits, abandons its wait, thread 1 gives item 7, loop 0 handles the
     message: the item is nowhere (not queued, not in flight, not delivered) although the give succeeded. -/
 theorem exactly_once_counterexample :
-    let s := run ⟨false, false, true, true⟩ [.take 0 0, .abandon 0, .give 1 1 7, .handle 0] (init 4)
+    let s := run ⟨false, false, true, true, true⟩ [.take 0 0, .abandon 0, .give 1 1 7, .handle 0] (init 4)
     s.sent = [7] ∧ s.items = [] ∧ s.flight = [] ∧ s.delivered = [] ∧ ¬ Conserved s := by
   refine ⟨by decide, by decide, by decide, by decide, ?_⟩
   intro h
@@ -36,7 +36,7 @@ theorem exactly_once_counterexample :
   revert this
   decide
 
-example : (run ⟨true, true, true, true⟩ [.take 0 0, .abandon 0, .give 1 1 7, .handle 0, .take 0 2] (init 4)).delivered = [(2, 7)] := by
+example : (run ⟨true, true, true, true, true⟩ [.take 0 0, .abandon 0, .give 1 1 7, .handle 0, .take 0 2] (init 4)).delivered = [(2, 7)] := by
   decide
 
 /-- ★ (partial) per-sender order: in every execution in which no read message is found stale, items leave the channel
@@ -54,12 +54,39 @@ theorem per_sender_order_partial (cfg : Cfg) (limit : Nat) (acts : List Act)
 /-- even with the put-back fix: item 1 is dispatched to a reader that abandoned its wait, item 2 is queued and taken by
     fiber 5, item 1 comes back and is taken by fiber 5 afterwards: received 2 before 1 although sent 1 before 2. -/
 theorem per_sender_order_counterexample :
-    let s := run ⟨true, true, true, true⟩
+    let s := run ⟨true, true, true, true, true⟩
       [.take 0 0, .abandon 0, .give 1 1 1, .give 1 1 2, .take 0 5, .handle 0, .take 0 5] (init 4)
     s.sent = [1, 2] ∧ s.delivered = [(5, 2), (5, 1)] := by
   decide
 
-example : (run ⟨true, true, true, true⟩ [.take 0 0, .give 1 1 1, .give 1 1 2, .handle 0, .take 0 5] (init 4)).staleReads = 0 := by
+example : (run ⟨true, true, true, true, true⟩ [.take 0 0, .give 1 1 1, .give 1 1 2, .handle 0, .take 0 5] (init 4)).staleReads = 0 := by
+  decide
+
+/-! ### blocked writers: a wake-up forwarded past a writer that gave up reaches the next writer -/
+
+/-- janet_thread_chan_cb on a stale WRITE wake-up with another writer pending: the wake-up is forwarded with that writer's OWN
+    `sched_id`, so the writer's loop will accept it (next theorem). -/
+theorem writer_wakeup_forwarded (cfg : Cfg) (hf : cfg.forwardOwnSched = true) (hd : cfg.redispatch = true)
+    (hc : cfg.checkSched = true) (s : St) (ml mf ms : Nat) (w : Pending) (ws : List Pending)
+    (hst : s.sched mf ≠ ms) (hw : s.writers = w :: ws) :
+    (cb cfg s ⟨ml, mf, ms, .write⟩).flight = s.flight ++ [⟨w.thread, w.fiber, w.sched, .write⟩] ∧
+      (cb cfg s ⟨ml, mf, ms, .write⟩).writers = ws := by
+  have h1 : ¬ ((!cfg.checkSched || s.sched mf == ms) = true) := by simp [hc, hst]
+  simp [cb, h1, hd, hf, hw]
+
+/-- ... and a writer that is still waiting (its `sched_id` unchanged) is resumed by the forwarded wake-up. -/
+theorem writer_wakeup_accepted (cfg : Cfg) (s : St) (w : Pending) (hcur : s.sched w.fiber = w.sched) :
+    (cb cfg s ⟨w.thread, w.fiber, w.sched, .write⟩).woken = s.woken ++ [(w.fiber, .write)] := by
+  simp [cb, hcur]
+
+/-- if the forwarded wake-up kept the STALE entry's `sched_id`: channel of capacity 1, fibers 2 and 3 are parked writers
+    (fiber 3 has a different sched counter), fiber 2 gives up, fiber 4 takes: the wake-up is forwarded to fiber 3 with
+    fiber 2's id, rejected there, forwarded off the end of the queue - fiber 3 is never resumed. -/
+theorem writer_wakeup_counterexample :
+    let acts := [Act.give 0 1 10, .give 0 2 20, .abandon 3, .give 0 3 30, .abandon 2, .take 0 4, .handle 0, .handle 0]
+    (run ⟨true, true, true, true, false⟩ acts (init 1)).woken = [] ∧
+    (run ⟨true, true, true, true, false⟩ acts (init 1)).flight = [] ∧
+    (run ⟨true, true, true, true, true⟩ acts (init 1)).woken = [(3, Kind.write)] := by
   decide
 
 /-! ### ev/thread -/
